@@ -107,6 +107,9 @@ func worker(c *mon.Ctx) {
 	if raceEnabled {
 		raceCanary()
 	}
+	// cold-start phase: before anything else in this process has used a codec (see cold.go)
+	coldInfo := coldStart(c, label)
+	coldInfo["wall_s"] = round3(time.Since(t0).Seconds())
 	sets := make([][]*call, maxGoroutines)
 	ncalls := 0
 	for g := range sets {
@@ -186,13 +189,13 @@ func worker(c *mon.Ctx) {
 		if i < idBigLz4c && st.maxOv[i] > globalMax { // the big-input phase has its own requirement
 			globalMax = st.maxOv[i]
 		}
-		if st.maxOv[i] < 2 {
+		if st.maxOv[i] < 2 && i < idColdUdt { // the cold-start phase has its own counter and requirement
 			noOverlap = append(noOverlap, sh.name)
 		}
 	}
 	c.Count("mismatches", st.bad)
 	c.Set("child_"+label, map[string]interface{}{
-		"race_build": raceEnabled, "gomaxprocs": runtime.GOMAXPROCS(0), "shared_codecs": len(sharedList), "big_input_phase": bigInfo,
+		"race_build": raceEnabled, "gomaxprocs": runtime.GOMAXPROCS(0), "shared_codecs": len(sharedList), "big_input_phase": bigInfo, "cold_start_phase": coldInfo,
 		"calls_per_goroutine_round_avg": ncalls / maxGoroutines, "sequential_calls": seqTotal, "sequential_results_that_are_errors": seqErrors,
 		"sequential_not_reproducible": unstable, "concurrent_calls": st.n, "mismatches": st.bad,
 		"max_overlap_any_codec": globalMax, "codecs_never_overlapped": noOverlap, "per_M": perMInfo,
@@ -336,6 +339,9 @@ func supervise(c *mon.Ctx) {
 				Big        struct {
 					Max int32 `json:"max_simultaneous_lz4_compressions_of_more_than_64KiB"`
 				} `json:"big_input_phase"`
+				Cold struct {
+					Max int32 `json:"max_simultaneous_cold_calls"`
+				} `json:"cold_start_phase"`
 			}
 			if raw, ok := rep.Extra["child_"+ch.label]; ok {
 				json.Unmarshal(raw, &info)
@@ -347,6 +353,10 @@ func supervise(c *mon.Ctx) {
 			if info.MaxOverlap < 2 {
 				exercised = false
 				notExercised = append(notExercised, ch.label)
+			}
+			if info.Cold.Max < 2 {
+				exercised = false
+				notExercised = append(notExercised, ch.label+"(cold-start phase: never two cold calls at once)")
 			}
 			if info.Big.Max < 2 {
 				exercised = false
@@ -404,8 +414,8 @@ func supervise(c *mon.Ctx) {
 	c.Set("race_pairs_in_library", pairs)
 	c.Set("goroutine_counts", goroutineCounts)
 
-	for _, sh := range sharedList {
-		if c.Counter("max_overlap_"+sh.name) < 2 {
+	for i, sh := range sharedList {
+		if i < idColdUdt && c.Counter("max_overlap_"+sh.name) < 2 {
 			c.Inconclusive("never-two-calls-at-once/" + sh.name)
 		}
 	}
